@@ -893,10 +893,58 @@ def propagate_aliases(tree):
     return n
 
 
+class _CallLambda(ast.NodeTransformer):
+    """(lambda a, b=E: BODY)(X) -> BODY with the parameters replaced by their arguments, when every argument is a plain name,
+    constant or attribute chain (evaluating it where the parameter is used changes nothing)."""
+
+    def visit_Call(self, node):
+        self.generic_visit(node)
+        f = node.func
+        if not isinstance(f, ast.Lambda) or any(isinstance(a, ast.Starred) for a in node.args) or any(k.arg is None for k in node.keywords):
+            return node
+        a = f.args
+        if a.vararg or a.kwarg or a.kwonlyargs or a.posonlyargs:
+            return node
+        params = [x.arg for x in a.args]
+        defaults = [None] * (len(params) - len(a.defaults)) + list(a.defaults)
+        bound = {}
+        for i, v in enumerate(node.args):
+            if i >= len(params):
+                return node
+            bound[params[i]] = v
+        for k in node.keywords:
+            if k.arg not in params or k.arg in bound:
+                return node
+            bound[k.arg] = k.value
+        for p_, d_ in zip(params, defaults):
+            if p_ not in bound:
+                if d_ is None:
+                    return node
+                bound[p_] = d_
+
+        def plain(e):
+            while isinstance(e, ast.Attribute):
+                e = e.value
+            return isinstance(e, (ast.Name, ast.Constant))
+        if not all(plain(v) for v in bound.values()):
+            return node
+
+        class Sub(ast.NodeTransformer):
+            def visit_Name(self_, n):
+                if isinstance(n.ctx, ast.Load) and n.id in bound:
+                    return copy.deepcopy(bound[n.id])
+                return n
+
+            def visit_Lambda(self_, n):
+                return n          # inner lambdas may rebind the names: left alone
+        return ast.copy_location(Sub().visit(copy.deepcopy(f.body)), node)
+
+
 def deselect_module(tree):
     """Rewrite calls through a (callable, arguments) pair chosen by an if/else into the two direct calls (in place)."""
     n = 0
     counter = [0]
+    _CallLambda().visit(tree)
     _ReturnIfExp().visit(tree)
     for st in ast.walk(tree):
         if isinstance(st, ast.FunctionDef):
